@@ -724,12 +724,16 @@ def _add_producers():
     def _model_fit(self, o, a, b):
         from rsatoolbox.model import ModelWeighted, ModelSelect
         from rsatoolbox.model.fitter import fit_regress
+        meth = ['cosine', 'corr', 'cosine_cov', 'corr_cov'][o['a'][1] % 4]
         if o['flag']:
             m = ModelSelect('m', a)
-            m.fit(b, method='cosine')
+            m.fit(b, method=meth)
         else:
             m = ModelWeighted('m', a)
-            fit_regress(m, b, method='cosine')
+            if o['flag2']:
+                fit_regress(m, b, method=meth)
+            else:
+                fit_regress(m, b, method=meth, pattern_idx=np.arange(a.n_cond), pattern_descriptor='index')
         return m
     _producer('model_fit', _model_fit, needs_two=True)
 
